@@ -22,6 +22,7 @@ Actions (plain and generator handlers):
   ['sysexit', code]           raise SystemExit(code)   (C08)
   ['kbint']                   raise KeyboardInterrupt  (C08)
   ['cancel', k]               cancel the k-th event this invocation fired (before it is dispatched)
+  ['retgen', n]               (plain handlers) return a generator object that yields None n times: the function itself has run to its end
 generator handlers only:
   ['yield', tag|None]         yield a unique value / None
   ['call', evspec, opts]      r = yield self.call(event, **opts)           logs what was received
@@ -253,6 +254,10 @@ class World:
             tag = 'v%d.%d.%s' % (uid, hid, act[1])
             self.L('P', uid, hid, tag)
             return ('ret', tag)
+        elif k == 'retgen':
+            # an ordinary function that delegates the rest of its work to a coroutine helper: ``...; return self._steps()``
+            self.L('RG', uid, hid, act[1])
+            return ('ret', self._tail_steps(uid, hid, act[1]))
         elif k == 'refire_same':
             # hand the event being handled on: fire the SAME object again (a forwarding pattern).  Its later dispatch gets a ghost identity
             # of its own, taken up by the probe when that dispatch begins; handlers of the current dispatch keep logging under the old one
@@ -374,6 +379,11 @@ class World:
             raise
         finally:
             self.cur.pop()
+
+    def _tail_steps(self, uid, hid, n):
+        for i in range(n):
+            self.L('TS', uid, hid, i)
+            yield None
 
     def _run_gen(self, hd, event, comp):
         uid = getattr(event, '_vuid', None)
